@@ -683,6 +683,13 @@ def _split_tuple_assignments(fn):
 
 
 def _canon_function(fn):
+  # two rounds: folding a temporary (C1/C6) can expose a shape of the first
+  # group (`r = any(...); return r`)
+  for _ in range(2):
+    _canon_function_once(fn)
+
+
+def _canon_function_once(fn):
   _split_tuple_assignments(fn)
   _expand_next_searches(fn)
   _expand_conditional_expressions(fn)
